@@ -472,6 +472,9 @@ def _main(run, tier, seed, rnd, t_start):
     run.assume("a report is projected to the set of content ids whose cache-less reference is the same text; "
                "content 2 raises every instruction latency by 3 cycles (arch models) or removes the forms of "
                "some mnemonics (ISA databases), content 3 appends a comment")
+    # unbounded-step argument for the repaired write protocol (Apalache, inductive invariant)
+    from harness import apalache
+    apalache.cache_induction(run)
     return run.finish()
 
 
